@@ -328,7 +328,8 @@ def sim_wait(fs: Any, timeout: Optional[float] = None, return_when: str = cf.ALL
         rt.open_waits[tok] = {"kind": "conc", "fs": fs, "rw": return_when, "ev": i,
                               "part": sim.me(), "done0": {id(f) for f in fs if f.done()}}
     if fs:
-        sim.yield_("wait", pred=pred, info=("wait", tok))
+        # a timeout is honoured on the virtual clock (which only advances when nothing else can run)
+        sim.yield_("wait", pred=pred, info=("wait", tok), deadline=(sim.now + timeout) if timeout is not None else None)
     r = _real_wait(fs, 0, return_when)
     rt.open_waits.pop(tok, None)
     done_ids = [getattr(f, "nid", None) for f in r.done]
